@@ -2,7 +2,7 @@ package main
 
 // C19 — core builtins and bundled package tables agree with their Go counterparts.
 //
-// Five phases (histories: see c19_r5.go):
+// Five phases (histories: see c19_r5.go; kept results and deferred misuse: see c19_r6.go):
 //   tables  structural invariant on the LIVE env.Packages / env.PackageTypes tables (exhaustive):
 //           every Func entry resolves (runtime.FuncForPC) to the symbol "<import path>.<key>", every
 //           type entry is the named type <import path>.<key> (or a pointer to it), and what a script
@@ -13,7 +13,7 @@ package main
 //   values  keys/len/typeOf/kindOf/toX differential against native Go over a fixed value universe,
 //           PRNG-built values and reflect-built random types.
 //   misuse  every builtin x wrong argument count x every value kind (and clearly wrong argument
-//           types) must be an error, never a panic.
+//           types) must be an error, never a panic; also when a defer statement makes the call.
 
 import (
 	"bufio"
@@ -1959,6 +1959,7 @@ func c19Reps() []c19Val {
 }
 
 func c19MisuseCase(c *wk.Case, name string) {
+	defer c19MisuseDeferred(c, name) // round 6 (c19_r6.go): the same misuses as the call of a defer statement
 	reps := c19Reps()
 	run := func(sig string, src string, val c19Val, defs map[string]interface{}, mustErr bool) {
 		e := ank.NewCoreEnv()
@@ -2092,20 +2093,22 @@ func init() {
 				Rule: "tables: EVERY entry of the live env.Packages/env.PackageTypes (function entries: runtime.FuncForPC name == \"<import path>.<key>\"; type entries: named type <import path>.<key> or pointer to it; what import() hands out is the table entry; what a script reads by member access on the imported module, in six syntactic positions, after another script overwrote the members of module values it had imported itself, is that Go function, and the type it names by the path m.<key> is that Go type); " +
 					"range: all triples (and 1-/2-argument forms, wrong counts, zero steps) over an int64 boundary pool (18 values quick, 37 thorough) whose progression has <= 10000 elements, plus PRNG triples, each run in a limited child process and compared with the math/big progression; " +
 					"values: every builtin of {typeOf kindOf len keys toInt toFloat toString toRune toChar toByteSlice toRuneSlice toBoolSlice toStringSlice toIntSlice toFloatSlice} on a fixed universe of Go- and script-created values, PRNG numbers/numerals/strings/maps/slices and reflect-built random types, against native Go; " +
-					"misuse: every builtin x wrong argument count (direct and spread) x every value kind, and non-integer arguments of range; " +
-					"histories: sequences of calls of the container-returning builtins (range with 1-3 small arguments in related spellings, keys, the typed-slice and byte/rune slice forms) in which the script or the host stores into, appends to or uses the spare capacity of what a call returned before the builtin is called again with the same or related arguments, in the same and in fresh environments of one process; every call is judged against the native reference of the arguments' current values (case 0: every n in 0..130 in every spelling, all positions overwritten). An evaluation is non-trivial when the statement fixes its outcome; distinct = distinct (call, argument type, argument rendering).",
+					"misuse: every builtin x wrong argument count (direct and spread) x every value kind, and non-integer arguments of range; every such misuse, the wrong argument types the references demand an error for, and wrong counts / zero steps of range also as the call of a defer statement in 8 positions (top level, between other deferred calls, in a block, in a loop, in a named / anonymous / deferred / nested script function): an error of the run, never a panic out of vm.Execute; " +
+					"histories: sequences of calls of the container-returning builtins (range with 1-3 small arguments in related spellings, keys, the typed-slice and byte/rune slice forms) in which the script or the host stores into, appends to or uses the spare capacity of what a call returned before the builtin is called again with the same or related arguments, in the same and in fresh environments of one process; every call is judged against the native reference of the arguments' current values (case 0: every n in 0..130 in every spelling, all positions overwritten); kept results: histories over variables (host byte slices / strings / lists with byte-slice elements / maps, a bytes.Buffer) in which conversion results (toString, toByteSlice, toRuneSlice, the typed-slice forms, keys) are kept in variables and used as map keys while the script, the host or a Go API that reuses its memory (strings.Reader.Read into the same bytes, Buffer.Reset/Truncate+Write, an append into the shared backing array) stores into their arguments, and slice results are stored into while the arguments are kept: after every step every variable not stored into must deep-equal its private host-side copy and the key map must hold exactly the converted keys (case 0: every length 1..8 x origin of the bytes x position x kind of store). An evaluation is non-trivial when the statement fixes its outcome; distinct = distinct (call, argument type, argument rendering).",
 				Assumptions: []string{
 					"reference = Go itself on the same toolchain: math/big, strconv, fmt.Sprint, reflect.Type.String, native conversions",
 					"runtime.FuncForPC(entry).Name() identifies the Go function a table entry is bound to; flag.Usage is a func-typed variable and is compared with the variable's value; types defined in anko's own packages directory are anko helpers, not mis-bindings",
 					"not judged (statement silent): toBool, bool arguments of toInt/toFloat, load/print*, float->int conversions outside int64, numerals outside int64/float64, strings that are neither decimal numerals nor digit-free, argument conversions done by the call machinery (only kinds no Go conversion relates to the parameter must be errors)",
 					"histories run in-process: only progressions of <= 300 elements whose successor stays inside int64; a store into a builtin's result that the VM refuses is not judged (only the builtin calls are)",
+					"kept results: a conversion result is a Go value of its own (Go's string(b), []byte(s), []rune(s) copy; the typed-slice forms and keys build new slices), so it never changes through a store into another variable; the stores themselves, make, map stores and Go method calls are not judged (the stored-into variable's reference copy is refreshed from its actual value)",
+					"deferred misuse: the body of every script succeeds, so 'reported as an error' = vm.Execute returns a non-nil error; `defer len(..)` is not generated (len is syntax, not a call)",
 					"a range call whose child exceeds its heap/CPU budget (legal results need <= 80 kB) did not return the demanded progression: violation with that triple, never a hang",
 				},
 				Phases: []fw.Phase{
 					{Name: "tables", Cases: len(c19Pkgs()), Chunk: 4, Exhaust: true, TimeoutS: 300},
 					{Name: "range", Cases: 1 + c19EnumCases(tier) + nRandRange, Chunk: 1, Jobs: 16, TimeoutS: 900},
 					{Name: "values", Cases: nUniCases + nRandVals, Chunk: 40, TimeoutS: 900},
-					{Name: "misuse", Cases: len(c19MisuseNames), Chunk: 2, TimeoutS: 600},
+					{Name: "misuse", Cases: len(c19MisuseNames), Chunk: 2, TimeoutS: 600, MemMB: 3072},
 					{Name: "histories", Cases: 1 + nHist, Chunk: 16, Jobs: 4, TimeoutS: 600, MemMB: 3072},
 				},
 			}
